@@ -94,8 +94,7 @@ theorem vendors_sound : ∀ v ∈ Generated.Tpm.vendors,
 theorem tpm_constants : Generated.Tpm.generatedValue = 0xFF544347 ∧ Generated.Tpm.tagAttestCertify = 0x8017
     ∧ Generated.Tpm.sanTagDirectoryName = 4 ∧ Generated.Tpm.oidSAN = [2, 5, 29, 17]
     ∧ Generated.Tpm.oidTPMManufacturer = Spec.Tpm.oidManufacturer ∧ Generated.Tpm.oidTPMPartNumber = Spec.Tpm.oidModel
-    ∧ Generated.Tpm.oidTPMFirmwareVersion = Spec.Tpm.oidVersion
-    ∧ Generated.Tpm.tpmIdConds = ["len(raw) != 11", "!strings.HasPrefix(raw,\"id:\")", "err != nil"] := by decide
+    ∧ Generated.Tpm.oidTPMFirmwareVersion = Spec.Tpm.oidVersion := by decide
 
 theorem vendorName_zero : Tpm.vendorName [0, 0, 0, 0] = none := by decide
 
